@@ -253,7 +253,7 @@ pub fn workers() -> usize {
         .max(1)
 }
 
-fn run_batch(prop: &str, b: &Batch, n: u64, master: u64, t: Tier) -> Agg {
+fn run_batch(prop: &str, b: &Batch, n: u64, master: u64, t: Tier, ignorable: &(dyn Fn(&Outcome) -> bool + Sync)) -> Agg {
     let next = AtomicU64::new(0);
     let total = Mutex::new(Agg::default());
     let stop = AtomicBool::new(false);
@@ -265,6 +265,7 @@ fn run_batch(prop: &str, b: &Batch, n: u64, master: u64, t: Tier) -> Agg {
                 .spawn_scoped(s, || {
                     TIER.with(|c| c.set(t));
                     let mut agg = Agg::default();
+                    let mut new_viol = 0;
                     loop {
                         if stop.load(Ordering::Relaxed) {
                             break;
@@ -276,8 +277,19 @@ fn run_batch(prop: &str, b: &Batch, n: u64, master: u64, t: Tier) -> Agg {
                         let seed = run_seed(master, prop, b.name, i);
                         let tape = if b.grid > 0 { Tape::generate_forced(seed, vec![i % b.grid]) } else { Tape::generate(seed) };
                         let o = exec_run(b.f, tape, false);
-                        agg.add(i, seed, o);
-                        if agg.viol.len() >= 8 {
+                        let counts = !o.violations.is_empty() && !ignorable(&o);
+                        if !o.violations.is_empty() && !counts && agg.viol.len() >= 4 {
+                            // known finding / other property's class: keep a few, do not stop
+                            let mut o = o;
+                            o.violations.clear();
+                            agg.add(i, seed, o);
+                        } else {
+                            agg.add(i, seed, o);
+                        }
+                        if counts {
+                            new_viol += 1;
+                        }
+                        if new_viol >= 8 {
                             stop.store(true, Ordering::Relaxed);
                         }
                     }
@@ -478,7 +490,18 @@ pub fn run_property(spec: &Spec, t: Tier, master: u64, write_evidence: bool) -> 
         };
         let n = ((n as f64 * scale) as u64).max(1);
         let bs = Instant::now();
-        let agg = run_batch(spec.id, b, n, master, t);
+        let ignorable = |o: &Outcome| -> bool {
+            let Some(v) = o.violations.first() else { return false };
+            let key = v.key();
+            let full = format!("{}:{}", b.name, key);
+            if let Some(owners) = class_owners(&v.class) {
+                if !owners.contains(&spec.id) {
+                    return true;
+                }
+            }
+            known.iter().any(|k| k.property == spec.id && k.status == "finding" && (k.key == key || k.key == full))
+        };
+        let agg = run_batch(spec.id, b, n, master, t, &ignorable);
         let secs = bs.elapsed().as_secs_f64();
         batch_info.push(J::obj(vec![
             ("batch", J::s(b.name)),
